@@ -1,4 +1,4 @@
-CONSTANTS NObj = 3 MaxStack = 3 MaxFields = 2 RescanRoots = TRUE WithStrOps = TRUE
+CONSTANTS NObj = 3 MaxStack = 3 MaxFields = 2 RescanRoots = TRUE WithStrOps = TRUE RescanScope = "all"
 SPECIFICATION Spec
 INVARIANTS Safe HeapListOK IdleOK SweepOK GrayOK TypeOK
 CHECK_DEADLOCK FALSE
